@@ -4,7 +4,7 @@
     regression.rs fit_epsilon / fit_nu; lib.rs Svm::weighted_sum / nsupport; linfa-kernel
     KernelMethod::distance up to its exp / powf call).  A transliteration of the code after the repairs
     432f285 (F10, shrinking; design-notes/fixes/C13_F10.diff) and edbd656 (F31, nu-SVC linear hyperplane;
-    C13_F25.diff); nu-SVR is modelled as it is (nu_constraint = false, known finding F32).  Polymorphic in NumOps; run at B64_ops against the Rust f64 implementation bit for bit. *)
+    C13_F25.diff), de2a01f / 4625418 (F-C13-L1 targets in logical order - nothing to model; F-C13-S1 nu-SVC support-vector selection after the division by r); nu-SVR is modelled as it is (nu_constraint = false, known finding F32).  Polymorphic in NumOps; run at B64_ops against the Rust f64 implementation bit for bit. *)
 From Coq Require Import List NArith ZArith Bool.
 From LinfaVerif Require Import Common.Num Common.NdSum.
 Import ListNotations.
@@ -552,9 +552,17 @@ Definition fit_nu_svc (fuel : nat) (K rows : list (list F)) (tgs : list bool) (e
       match mSep m' with
       | HLinear w => {| mAlpha := mAlpha m'; mRho := mRho m'; mR := mR m'; mObj := mObj m'; mIter := mIter m';
                         mSep := HLinear (map (fun x => x / r) w) |}
-      | HSupport _ => m'
+      (* repair 4625418 (finding F-C13-S1): the stored support vectors are re-selected from the DIVIDED coefficients, the
+         ones weighted_sum filters by the same threshold; before the repair the selection made by solve() on the
+         undivided coefficients was kept ([HSupport _ => m'], see [nusvc_pre_repair_sv]) *)
+      | HSupport _ => {| mAlpha := mAlpha m'; mRho := mRho m'; mR := mR m'; mObj := mObj m'; mIter := mIter m';
+                         mSep := HSupport (support_vectors rows (mAlpha m')) |}
       end)
     (solve fuel P s).
+
+(* the stored vectors of a nu-SVC fit before the repair 4625418: selected by the coefficients before their division by r *)
+Definition nusvc_pre_repair_sv (rows : list (list F)) (alpha_undivided : list F) : list (list F) :=
+  support_vectors rows alpha_undivided.
 
 (* [nt] = (nu * size).to_usize() is supplied by the caller, see [trunc_ok] *)
 Definition one_class_init (size : nat) (nu : F) (nt : nat) : list F :=
